@@ -63,7 +63,8 @@ Inductive leaf :=
 | LUndef (v : nat) (a b : K)
 | LDeriv (v k : nat)
 | LInteg (v : nat)
-| LConv (v h : nat).
+| LConv (v h : nat)
+| LPoly (p : list K).        (* a polynomial factor  p0 + p1 t + p2 t^2 + ...  (an Add inside a Mul) *)
 Definition mono := (K * list leaf)%type.
 Definition tx := list mono.
 
@@ -81,6 +82,8 @@ Definition ramp_nf (a b : K) : option nf :=
   else None.
 Definition oscale (c : K) (N : option nf) : option nf := match N with Some x => Some (nscale c x) | None => None end.
 Definition half : K := 1 / two.
+Fixpoint poly_r (k : nat) (p : list K) : list rt :=
+  match p with [] => [] | a :: p' => (a * fnat (natfact k), k, 0) :: poly_r (S k) p' end.
 Definition leaf_nf (l : leaf) : option nf :=
   match l with
   | LPowT n => Some [NReg None [(fnat (natfact n), n, 0)]]
@@ -96,6 +99,7 @@ Definition leaf_nf (l : leaf) : option nf :=
   | LTri a b => oapp (ramp_nf a (b + 1)) (oapp (oscale (- two) (ramp_nf a b)) (ramp_nf a (b - 1)))
   | LRamp a b => ramp_nf a b
   | LRstep a b => oapp (ramp_nf a b) (oscale (- (1)) (ramp_nf a (b - 1)))
+  | LPoly p => Some [NReg None (poly_r O p)]
   | LUndef _ _ _ | LDeriv _ _ | LInteg _ | LConv _ _ => None
   end.
 Fixpoint prod_nf (fs : list leaf) : option nf :=
@@ -183,7 +187,7 @@ Definition function_model (l : leaf) : option (K -> K) :=
   | LRstep a b => if feqb b 0 then Some (f_rstep F a) else None
   | _ => None
   end.
-Definition is_function (l : leaf) : bool := match l with LPowT _ | LDeriv _ _ | LInteg _ | LConv _ _ => false | _ => true end.
+Definition is_function (l : leaf) : bool := match l with LPowT _ | LDeriv _ _ | LInteg _ | LConv _ _ | LPoly _ => false | _ => true end.
 
 (* ---- AppliedUndef branch ------------------------------------------------------------------- *)
 Definition sift_shape (fs : list leaf) : option (nat * K * K * K * K) :=
@@ -338,10 +342,33 @@ Fixpoint term_list (zic : bool) (ms : list mono) : option (K -> K) * list ev :=
       let (r2, e2) := term_list zic ms' in
       (vadd r1 r2, EvTerm :: e1 ++ e2)
   end.
+(* a polynomial factor: `expr.expand(deep=False)` distributes it, every product goes through term again (highest
+   power first); the power of t merges with a factor t^n that is already there *)
+Definition is_poly (l : leaf) : bool := match l with LPoly _ => true | _ => false end.
+Fixpoint first_poly (fs : list leaf) : option (list K) :=
+  match fs with [] => None | LPoly p :: _ => Some p | _ :: fs' => first_poly fs' end.
+Fixpoint powt_of (fs : list leaf) : nat :=
+  match fs with [] => O | LPowT n :: _ => n | _ :: fs' => powt_of fs' end.
+Definition strip_poly (fs : list leaf) : list leaf :=
+  filter (fun l => match l with LPoly _ | LPowT _ => false | _ => true end) fs.
+Fixpoint poly_terms (k n : nat) (p : list K) (rest : list leaf) (acc : list mono) : list mono :=
+  match p with
+  | [] => acc
+  | a :: p' =>
+      poly_terms (S k) n p' rest
+        (if feqb a 0 then acc else (a, (match (k + n)%nat with O => [] | S _ => [LPowT (k + n)] end) ++ rest) :: acc)
+  end.
+Definition poly_expand (fs : list leaf) : list mono :=
+  match first_poly fs with
+  | Some p => poly_terms O (powt_of fs) p (strip_poly fs) []
+  | None => []
+  end.
 Definition term (zic : bool) (m : mono) : option (K -> K) * list ev :=
   let (c, fs) := m in
   if existsb is_hyp fs then
     let (r, evs) := term_list zic (hyp_expand fs) in (vscale c r, EvTerm :: evs)
+  else if existsb is_poly fs then
+    let (r, evs) := term_list zic (poly_expand fs) in (vscale c r, EvTerm :: evs)
   else let (r, evs) := term1 zic c fs in (r, EvTerm :: evs).
 
 (* ---- UnilateralForwardTransformer.doit ------------------------------------------------------- *)
@@ -771,6 +798,9 @@ Definition den_mono (m : mono) : option signal :=
   let fs := remove_heaviside (snd m) in
   if existsb is_hyp fs then
     match den_list (hyp_expand fs) with Some x => Some (SScale (fst m) x) | None => None end
+  else if existsb is_poly fs then
+    (* a polynomial factor is a sum: the product denotes the distributed sum *)
+    match den_list (poly_expand fs) with Some x => Some (SScale (fst m) x) | None => None end
   else den1 (fst m) fs.
 Fixpoint den (e : tx) : option signal :=
   match e with
@@ -782,7 +812,8 @@ Fixpoint dom_list (ms : list mono) (s : K) : Prop :=
   match ms with [] => True | (c, fs) :: ms' => dom1 fs s /\ dom_list ms' s end.
 Definition dom_mono (m : mono) (s : K) : Prop :=
   let fs := remove_heaviside (snd m) in
-  if existsb is_hyp fs then dom_list (hyp_expand fs) s else dom1 fs s.
+  if existsb is_hyp fs then dom_list (hyp_expand fs) s
+  else if existsb is_poly fs then dom_list (poly_expand fs) s else dom1 fs s.
 Fixpoint dom (e : tx) (s : K) : Prop := match e with [] => True | m :: e' => dom_mono m s /\ dom e' s end.
 
 (* ---- the contracts -------------------------------------------------------------------------------------- *)
@@ -1050,8 +1081,13 @@ Proof. destruct m as [c fs0]. unfold strip, den_mono, dom_mono, term. cbn [fst s
     apply vscale_some in Hv. destruct Hv as [X0 [-> ->]].
     destruct (den_list (hyp_expand fs)) as [y|] eqn:Dy; [|discriminate]. inversion Hd; subst x.
     apply LP_scale. exact (term_list_sound zic _ X0 ev0 y Et Dy).
-  - destruct (term1 zic c fs) as [r ev0] eqn:Et. intros H Hd. inversion H; subst r.
-    exact (term1_sound zic c fs X ev0 x Et Hd). Qed.
+  - destruct (existsb is_poly fs).
+    + destruct (term_list zic (poly_expand fs)) as [r ev0] eqn:Et. intros H Hd. inversion H as [[Hv He]].
+      apply vscale_some in Hv. destruct Hv as [X0 [-> ->]].
+      destruct (den_list (poly_expand fs)) as [y|] eqn:Dy; [|discriminate]. inversion Hd; subst x.
+      apply LP_scale. exact (term_list_sound zic _ X0 ev0 y Et Dy).
+    + destruct (term1 zic c fs) as [r ev0] eqn:Et. intros H Hd. inversion H; subst r.
+      exact (term1_sound zic c fs X ev0 x Et Hd). Qed.
 
 Theorem doit_terms_sound zic e : forall X evs x, doit_terms zic e = (Some X, evs) -> den e = Some x ->
   LPair K ex isr neg Fn (Icz zic) x (dom e) X.
@@ -1173,4 +1209,4 @@ End LModel.
 
 Arguments LPowT {K}. Arguments LExp {K}. Arguments LSin {K}. Arguments LCos {K}. Arguments LSinh {K}. Arguments LCosh {K}.
 Arguments LU {K}. Arguments LDelta {K}. Arguments LRect {K}. Arguments LTri {K}. Arguments LRamp {K}. Arguments LRstep {K}.
-Arguments LUndef {K}. Arguments LDeriv {K}. Arguments LInteg {K}. Arguments LConv {K}.
+Arguments LUndef {K}. Arguments LDeriv {K}. Arguments LInteg {K}. Arguments LConv {K}. Arguments LPoly {K}.
